@@ -43,6 +43,17 @@ def is_elem_atom(a):
     return a in ELEM or a.startswith('|')
 
 
+def _second_order(r):
+    """does the closed form contain a sum of second-order element monomials (S[t*t], S[p*t], ...) or a product of two sums?"""
+    if isinstance(r, Wrap):
+        return False
+    for mono in r.n.t:
+        sums = [a for a in mono if a.startswith('S[')]
+        if any(a.count('*') >= 1 for a in sums) or len(sums) >= 2:
+            return True
+    return False
+
+
 class Wrap:
     """fn(arg) with arg a Rat or Wrap"""
     def __init__(self, fn, arg):
@@ -100,6 +111,7 @@ class Reducer:
         self.truth = f.params[0]['name']
         self.pred = f.params[1]['name'] if len(f.params) > 1 else None
         self.guard_notes = []
+        self.cancellations = []  # post-loop subtractions of two second-order sums (catastrophic cancellation)
         self.colvar = None       # column mode: name of the outer (column) loop variable
         self.results = []        # column mode: values appended to the output vector
 
@@ -125,6 +137,9 @@ class Reducer:
             b = self.ev(kids(n)[1], env, loopvar)
             if isinstance(a, Wrap) or isinstance(b, Wrap):
                 raise Unsupported('arithmetic on a fabs/sqrt value')
+            if n['opcode'] == '-' and loopvar is None and _second_order(a) and _second_order(b):
+                # sum of squares minus a product of sums, formed AFTER the loops: the one-pass form  sum x^2 - (sum x)^2/n
+                self.cancellations.append(n)
             return {'+': a.__add__, '-': a.__sub__, '*': a.__mul__, '/': a.__truediv__}[n['opcode']](b)
         if k == 'ArraySubscriptExpr' and self.colvar is not None:
             b = strip(kids(n)[0])
@@ -243,7 +258,7 @@ class Reducer:
                 ret = [None]
                 for x in (kids(e) if e.get('kind') == 'CompoundStmt' else [e]):
                     self.stmt(x, env, ret)
-                self.guard_notes.append(('snap', n, v))
+                self.guard_notes.append(('snap', n, v, guards.literal_value(m[2])))
                 return
         raise Unsupported('conditional at %s' % self.where(n))
 
@@ -276,6 +291,8 @@ class Reducer:
             a, b = env.get(nm), self.ev(kids(s0)[1], env)
             if a is None or isinstance(a, Wrap) or isinstance(b, Wrap):
                 raise Unsupported('update of %s' % nm)
+            if s0['opcode'] == '-=' and _second_order(a) and _second_order(b):
+                self.cancellations.append(s0)
             env[nm] = {'+=': a.__add__, '-=': a.__sub__, '*=': a.__mul__, '/=': a.__truediv__}[s0['opcode']](b)
             return
         if k == 'ForStmt':
@@ -400,6 +417,8 @@ def run(chk, prog):
     R1 = chk.rule('RF.definition', 'the closed form returned (sums over the non-missing elements, composed symbolically, exact arithmetic) '
                   'equals the defining formula of the figure of merit')
     R2 = chk.rule('RF.guard', 'every accumulation is under the one guard "truth element is not MISSING" and every loop runs over all elements')
+    R3 = chk.rule('RF.centred', 'centred second-order sums are accumulated as squared / cross deviations, never as (sum of squares) - (product of sums) '
+                  'after the loop (that form cancels for offsets large against the spread: the figures hold for vectors of any scale)')
     miss = float(guards.missing_value())
     for name, (want, text) in _defs().items():
         f = prog.funcs.get(name)
@@ -419,6 +438,16 @@ def run(chk, prog):
             chk.violation(Finding('RF.definition', rel(f.file), name, 'formula', f.where,
                                   '%s returns %s, which is not its definition %s = %s (N: number of non-missing truths, S[..]: sums over them)'
                                   % (name, str(got)[:300], text, str(want)[:200])))
+        if red.cancellations:
+            for node in red.cancellations:
+                chk.instance(R3, '%s %s: `%s` subtracts a product of sums from a sum of squares' % (f.unit.where(node), name, f.unit.text(node)[:60]), 'refuted')
+                chk.violation(Finding('RF.centred', rel(f.file), name, 'cancel', f.unit.where(node),
+                                      '%s: `%s` forms a second-order quantity as (sum of squares) - (product of sums) after the loop: equal to the centred sum '
+                                      'in exact arithmetic, but for data whose offset is large compared with its spread the two terms cancel and the result '
+                                      'loses all digits (R2 above 1 or -inf); the definition sums squared deviations from the mean' %
+                                      (name, f.unit.text(node)[:70])))
+        else:
+            chk.instance(R3, '%s %s: no second-order quantity is formed by subtracting sums after the loops' % (f.where, name))
         for note in red.guard_notes:
             if note[0] == 'range':
                 _, node, full, rng = note
@@ -487,8 +516,15 @@ def run_columns(chk, prog):
                     chk.violation(Finding('RF.column-guard', rel(f.file), name, 'range:%s' % rng, f.unit.where(node),
                                           '%s runs over %s instead of every row / column of the matrix' % (name, rng)))
             elif note[0] == 'snap':
-                chk.instance(R2, '%s %s: `%s` snapped to exactly 0 when it is within the tolerance of 0 (treated as the else arm)' %
-                             (f.unit.where(note[1]), name, note[2]))
+                tol = note[3] if len(note) > 3 else None
+                if tol is not None and tol <= 1e-6:
+                    chk.instance(R2, '%s %s: `%s` snapped to exactly 0 when it is within %g of 0 (treated as the else arm)' %
+                                 (f.unit.where(note[1]), name, note[2], tol))
+                else:
+                    chk.instance(R2, '%s %s: `%s` snapped to 0 within %s' % (f.unit.where(note[1]), name, note[2], tol), 'refuted')
+                    chk.violation(Finding('RF.column-guard', rel(f.file), name, 'snap:%s' % note[2], f.unit.where(note[1]),
+                                          '%s replaces `%s` by exactly 0 whenever it lies within %s of 0: for small-scale columns (values around 1e-4) that '
+                                          'discards a real, non-zero statistic (the confirmed snap tolerance is 1e-6)' % (name, note[2], tol)))
             else:
                 _, node, gkey, tgt = note
                 if gkey == frozenset({('truth', miss, False)}):
